@@ -146,6 +146,13 @@ func (f *Fetcher) Fetch(ctx context.Context, txID ids.ID, keys []string) error {
 		f.l.Unlock()
 		return f.err
 	}
+	if _, ok := f.txs[txID]; ok {
+		// [txID] is already registered (its keys are fetched or being
+		// fetched). Registering it again would replace the entry that
+		// [Get] may already be waiting on and double count its blockers.
+		f.l.Unlock()
+		return nil
+	}
 	var (
 		tx       = &tx{keys: keys}
 		tasks    = make([]*task, 0, len(keys))
